@@ -60,14 +60,25 @@ def make_u_weights(ug, w):
     return pg
 
 
+def nt_depth(S):
+    try:
+        return int(S[1][0][1])
+    except Exception:
+        return 0
+
+
 def make_weights(grammar, w):
     rng = random.Random(w["seed"])
     kind = w["kind"]
     probs = {}
+    deepest = max([nt_depth(S) for S in grammar.rules] + [0])
     for S in grammar.rules:
         probs[S] = {}
-        for P in grammar.rules[S]:
-            if kind == "uniform":
+        for i, P in enumerate(grammar.rules[S]):
+            if kind == "deep_spread":
+                # uniform everywhere except on the deepest non-terminals: 1 : 10^3 : 10^6
+                x = 1000.0 ** (i % 3) if nt_depth(S) == deepest else 1.0
+            elif kind == "uniform":
                 x = 1.0
             elif kind == "random":
                 x = rng.random() + 0.01
